@@ -177,6 +177,11 @@ def interior_pairs():
 
 def generate(rng, tier):
     cases, streams = [], []
+    u8c = {"k": "prim", "p": "uint", "w": 8, "c": "sat"}
+    for ch in ("/", "A", " ", "~"):
+        for other in ({"num": ord(ch), "den": 1}, {"chr": ch}, {"num": ord(ch) + 1, "den": 1}):
+            cases.append({"kind": "consts", "a": ["SEP", u8c, {"chr": ch}], "b": ["SEP", dict(u8c), other]})
+            streams.append("targeted")
     for a, b in interior_pairs():
         cases.append({"kind": "types", "a": a, "b": b})
         streams.append("targeted")
@@ -328,7 +333,10 @@ def _run_impl_raw(cases):
                 out.append(pair_obs(fa, fb))
             elif k == "consts":
                 def mk(c):
-                    v = _expression.Boolean(c[2]["bool"]) if "bool" in c[2] else _expression.Rational(Fraction(c[2]["num"], c[2]["den"]))
+                    if "chr" in c[2]:
+                        v = _expression.String(c[2]["chr"])   # stored as its code point
+                    else:
+                        v = _expression.Boolean(c[2]["bool"]) if "bool" in c[2] else _expression.Rational(Fraction(c[2]["num"], c[2]["den"]))
                     return pydsdl.Constant(tygen.build(c[1]), c[0], v)
                 out.append(pair_obs(mk(case["a"]), mk(case["b"])))
             elif k == "sets":
@@ -367,6 +375,16 @@ def _run_impl_raw(cases):
                 t = tygen.build(case["type"])
                 before = layout_obs(t)
                 fail = None
+                # the list handed to a constructor still belongs to the caller: changing it afterwards must not change the type
+                mine = [pydsdl.Field(pydsdl.UnsignedIntegerType(8, pydsdl.PrimitiveType.CastMode.SATURATED), "a"),
+                        pydsdl.Field(t, "b")]
+                own = pydsdl.StructureType(name="ns.Own", version=pydsdl.Version(1, 0), attributes=mine, deprecated=False, fixed_port_id=None,
+                                           source_file_path=Path("ns/Own.1.0.dsdl"), has_parent_service=False)
+                own_before = layout_obs(own)
+                mine.append(pydsdl.Field(pydsdl.BooleanType(), "late"))
+                mine.reverse()
+                if layout_obs(own) != own_before:
+                    fail = "changing the attribute list after it was handed to the constructor changed the type"
                 for acc in ("attributes", "fields", "constants", "fields_except_padding", "name_components", "namespace_components"):
                     lst = getattr(t, acc)
                     if isinstance(lst, list):
@@ -492,6 +510,8 @@ def emit(case, obs):
         from fractions import Fraction
 
         def norm(v):
+            if "chr" in v:
+                return {"num": ord(v["chr"]), "den": 1}
             if "bool" in v:
                 return v
             f = Fraction(v["num"], v["den"])
